@@ -51,8 +51,8 @@ CHECKS = {
          "Depth-free table models with generated irrelevance patterns, set packing (dynamic order), common subsequence with jumps; widths 1..3, cache on/off, sequential and 1-3 real threads; all three diagrams exact and equal to the oracle, termination within the proven poll budget, default-completed solution replays." + EXPL,
          TRUST + "models declare irrelevance with a neutral default decision.", "§7 C15"),
  "C16": ("sub-process differential property-based testing (Hypothesis) of the 12 shipped example binaries against independent brute-force solvers written from the problem statements",
-         "For each example a Hypothesis strategy generates well-formed instances in the example's file format (sizes small enough for exhaustive enumeration), the dev-profile binary built from /repo's working tree is run as a sub-process for widths {1,2,3,default} x threads {1,2[,4]} plus two intermediate widths (4..8, 9..16) chosen by the hash of the instance, and its printed objective / proof status / exit code is compared with the brute-force optimum; crashes and wrong optima are violations, a hang is a watchdog expiry (inconclusive)." + EXPL,
-         "Trusted: the 12 brute-force oracles (cross-validated against the binaries at large widths), instance generators stay inside what each reader/model documents and every restriction they impose is satisfied by all shipped benchmark files of that example (measured, DESIGN §7 C16); wall-clock watchdog only for hangs (exit 2).", "§7 C16"),
+         "For each example a Hypothesis strategy generates well-formed instances in the example's file format (sizes small enough for exhaustive enumeration), the dev-profile binary built from /repo's working tree is run as a sub-process for widths {1,2,3,default} x threads {1,2[,4]} plus two intermediate widths (4..8, 9..16) chosen by the hash of the instance, and its printed objective / proof status / exit code is compared with the brute-force optimum; crashes and wrong optima are violations, a hang is a watchdog expiry (inconclusive). A second Hypothesis search per example (other seed, 2-5 times more instances, somewhat larger ones where the oracle stays cheap) drives the same example program compiled as an in-process server (its own main.rs, transformed in three places, c16/inproc.py) at every width 1..8, two widths in 9..16 and the default width; a failure seen there counts only after the real binary has reproduced it." + EXPL,
+         "Trusted: the 12 brute-force oracles (cross-validated against the binaries at large widths), instance generators stay inside what each reader/model documents and every restriction they impose is satisfied by all shipped benchmark files of that example (measured, DESIGN §7 C16); wall-clock watchdog only for hangs (exit 2); in-process part: calling an example's main function repeatedly in one (regularly recycled) process behaves like separate processes - discrepancies with the real binary are counted, listed and never reported.", "§7 C16"),
  "C17": ("algebraic-law property-based testing of Solver::gap() on a stub solver: exhaustive grid + random pairs + completed solver runs",
          "Five stated predicates checked on every pair of a grid (infinities, 0, small, huge, powers of two and neighbours, both signs), on random pairs, and after completed runs (optimum zero / negative / infeasible)." + EXPL,
          "Trusted: f32 comparison semantics; pairs ordered lb <= ub.", "§7 C17"),
@@ -101,7 +101,7 @@ def main():
         },
         "engines": [
             {"name": "c16", "path": "/verif/c16/check_c16.py", "serves_properties": ["C16"],
-             "kind_free_text": "Python / Hypothesis: per-example instance strategies, brute-force oracles, sub-process runner over the example binaries built from /repo (cargo build --examples --offline), one worker process per example"},
+             "kind_free_text": "Python / Hypothesis: per-example instance strategies, brute-force oracles, sub-process runner over the example binaries built from /repo (cargo build --examples --offline) and in-process server transport (c16/inproc.py: the same programs, generated from their main.rs and built from /repo), one worker process per example"},
             {"name": "harness", "path": "/verif/harness", "serves_properties": sorted(k for k in CHECKS.keys() if k != "C16"),
              "kind_free_text": "Rust crate: proptest strategies for model instances/configurations/op sequences/schedules, independent oracles, recording wrappers, cooperative scheduler over the hooks; sharded over 16 processes"},
         ],
